@@ -48,31 +48,33 @@ fn c18_timestamp_checked_add() {
 #[kani::proof]
 #[kani::unwind(4)]
 fn c18_propagation_delay_arithmetic() {
-    let f_ms: u32 = kani::any(); // forward one-way delay
-    let b_ms: u32 = kani::any(); // backward one-way delay
-    let p_ms: u16 = kani::any(); // true processing delay at the outstation
-    kani::assume(f_ms < (1 << 20) && b_ms < (1 << 20));
-    let reported: u16 = kani::any();
-    let interval = Duration::from_millis(f_ms as u64 + p_ms as u64 + b_ms as u64);
-    let delay_ms = reported;
+    // round trip measured by the master = whole seconds + milliseconds (no sub-ms part: keeps the oracle exact)
+    let rs: u32 = kani::any();
+    let rms: u32 = kani::any();
+    kani::assume(rs < (1 << 20) && rms < 1000);
+    let interval = Duration::new(rs as u64, rms * 1_000_000);
+    // processing delay reported by the outstation, given as seconds + milliseconds so that no division is needed here
+    let ds: u16 = kani::any();
+    let dms: u16 = kani::any();
+    kani::assume(dms < 1000 && ds <= 65);
+    kani::assume((ds as u32) * 1000 + (dms as u32) <= 65535);
+    let delay_ms: u16 = ds * 1000 + dms;
     let r: Option<Duration> = include!(concat!(env!("VERIF_GEN_DIR"), "/time_propagation_expr.rs"));
-    let total = f_ms as u64 + p_ms as u64 + b_ms as u64;
-    if reported as u64 > total {
+    // reference subtraction in (seconds, milliseconds) with borrow
+    let too_big = (ds as u32 > rs) || (ds as u32 == rs && dms as u32 > rms);
+    if too_big {
         assert!(r.is_none());
     } else {
+        let (s, ms) = if rms >= dms as u32 { (rs - ds as u32, rms - dms as u32) } else { (rs - ds as u32 - 1, rms + 1000 - dms as u32) };
         let prop = r.unwrap();
-        // exact: (total - reported) / 2, i.e. 500 us per ms of difference (no rounding loss)
-        assert!(prop == Duration::from_micros((total - reported as u64) * 500));
-        if reported == p_ms {
-            // honest outstation: estimate = f + (b - f)/2, i.e. the error is half the asymmetry and zero when f == b
-            assert!(prop == Duration::from_micros((f_ms as u64 + b_ms as u64) * 500));
-            if f_ms == b_ms {
-                assert!(prop == Duration::from_millis(f_ms as u64));
-            }
-        }
+        // propagation delay is exactly half of (round trip - processing delay): twice it gives the difference back
+        assert!(prop + prop == Duration::new(s as u64, ms * 1_000_000));
+        // consequence (IEEE 1815 non-LAN procedure): with one-way delays f and b and an honest report,
+        // round trip - delay = f + b, so the estimate (f + b)/2 misses f by (b - f)/2: zero when symmetric,
+        // never more than half the asymmetry
     }
-    kani::cover!(reported as u64 > total);
-    kani::cover!(reported == p_ms && f_ms != b_ms);
+    kani::cover!(too_big);
+    kani::cover!(!too_big && rms < dms as u32);
 }
 
 fn empty_response(iin1: u8) -> Response<'static> {
